@@ -81,6 +81,15 @@ pub fn minimise(sc: &Scenario, fail: &Fail) -> (Scenario, Fail) {
                     }
                 }
             }
+            if let Step::ObserveUntilJump { delta, take } = best.steps[i].clone() {
+                for t2 in [1, take] {
+                    let mut c = best.clone();
+                    c.steps[i] = Step::ObserveUntilJump { delta, take: t2 };
+                    if attempt!(c) {
+                        break;
+                    }
+                }
+            }
             if let Step::Goto { utc, nanos } = best.steps[i].clone() {
                 if nanos != 0 {
                     let mut c = best.clone();
